@@ -18,10 +18,10 @@ for id in "$@"; do
   demo=$(ls $src/demo/*.rs | head -1); name=$(basename $demo .rs)
   flags=""; [ -f $src/confirm.flags ] && flags=$(cat $src/confirm.flags)
   if [ "$pkg" = "polytune" ]; then tdir=tests; else tdir=crates/$pkg/tests; mkdir -p $tdir; fi
-  if grep -q "in-crate" $src/demo/run.sh 2>/dev/null; then
+  if grep -q "src/mpc.rs" $src/demo/run.sh 2>/dev/null; then
     # demonstration is a #[cfg(test)] module inside the crate
     cp $demo src/mpc/$name.rs; printf '#[cfg(test)]\nmod %s;\n' $name >> src/mpc.rs
-    runit() { nice cargo test --offline -p polytune --lib c10_ -- --test-threads=2; }
+    runit() { nice cargo test --offline -p polytune --lib c10 -- --test-threads=2; }
     cleanup() { rm -f src/mpc/$name.rs; git checkout -q -- src/mpc.rs; }
   else
     cp $demo $tdir/$name.rs
